@@ -161,6 +161,7 @@ type Transcript struct {
 	FiredGauge int
 	Committed  bool
 	EndSeq     int // global callback index of the END observation (-1 if none)
+	CodeUpdates []string // contract code updates / removals buffered by the host at the end of the execution
 }
 
 const ObsEventInfix = ".World.O_"
@@ -271,6 +272,13 @@ func (n *Node) Exec(req ExecReq, commitOnSuccess bool) *Transcript {
 	t.Fired = h.Fired
 	t.FiredSeq = h.FiredSeq
 	t.FiredGauge = h.FiredGauge
+	for l, c := range h.txCodes {
+		t.CodeUpdates = append(t.CodeUpdates, "update "+l.String()+" "+h64(c))
+	}
+	for l := range h.txCodeDel {
+		t.CodeUpdates = append(t.CodeUpdates, "remove "+l.String())
+	}
+	sortStrings(t.CodeUpdates)
 	switch {
 	case req.Kind == "script":
 		h.DiscardScript(err != nil)
